@@ -389,3 +389,17 @@ spec fn balances_in_range(ub: &UnstableBlocks, a: Address, chain: Seq<CachedBloc
 //@ tail
 //@| balance
 //@end
+
+// ---- C06: Page::from_bytes refuses every blob whose length is not 72 before touching it (types.rs:65) ---------------------
+//@extract file=canister/src/types.rs item="const EXPECTED_PAGE_LENGTH" props=C06
+//@end
+//@slice file=canister/src/types.rs in="impl Page" item="fn from_bytes" to_before="let height_offset = 32;" props=C06
+//@ head
+//@| // R8 slice: the length guard at the top of Page::from_bytes (the decoding of a 72-byte page is proved by Kani)
+//@| fn page_from_bytes_length_guard(bytes: Vec<u8>) -> (r: Result<(), String>)
+//@|     ensures
+//@|         // any byte string of another length yields an error, never a trap
+//@|         r.is_err() <==> bytes@.len() != 72,
+//@ tail
+//@| Ok(())
+//@end
